@@ -239,6 +239,10 @@ class ElementList(MutableSequence):
         :type child: :class:`Element <hl7apy.core.Element>`
         :param child: an instance of an :class:`Element <hl7apy.core.Element>` subclass
         """
+        if child.parent != self.element and child.traversal_parent != self.element:
+            # attach the child here: going through child.parent = ... would append it at the end
+            child._parent = self.element
+            child._traversal_parent = None
         if self._can_add_child(child):
             try:
                 if by_name_index == -1:
